@@ -16,7 +16,9 @@ from concurrent.futures import ThreadPoolExecutor
 
 ROOT = os.path.dirname(os.path.dirname(os.path.abspath(__file__)))
 # seeds whose change belongs to another property's clause
-ALSO = {'C16H': ['C13'], 'C07H': ['C17'], 'C16J': ['C13'], 'C13I': ['C16']}
+ALSO = {'C16H': ['C13'], 'C07H': ['C17'], 'C16J': ['C13'], 'C13I': ['C16'], 'C16K': ['C13'], 'C16L': ['C17', 'C09']}
+# seeds that no longer apply to /repo's HEAD because a later fix: commit rewrote the lines they change
+SUPERSEDED = {'C14K': 'fix 3f5d47b (D25) is the complete form of this half-change; the seed led to that finding'}
 
 
 def run(sid):
@@ -50,6 +52,12 @@ def main(argv):
             if res is None:
                 print('%s ERROR %s' % (sid, err), flush=True)
                 missed.append(sid)
+                continue
+            if res.get('applies') is False:
+                why = SUPERSEDED.get(sid)
+                print('%s does not apply to HEAD%s' % (sid, ': superseded - ' + why if why else ''), flush=True)
+                if not why:
+                    missed.append(sid)
                 continue
             ck = res.get('checks', {})
             caught = [p for p, c in ck.items() if c.get('exit') == 1]
